@@ -200,6 +200,19 @@ def main():
     s += 'def prefixMax : List Nat := [%s]\n' % (', '.join(str(int(x)) for x in pmax) if pmax is not None else '')
     s += 'def intCap : Option Nat := %s\n' % ('some %d' % cap if cap is not None else 'none')
     s += 'def maxStrDigits : Nat := %d\n' % msd
+    # table_entry_size sampled on a grid (the model hard-codes 32 + len + len; ConstsOK re-checks the samples)
+    tes = get(T, 'table_entry_size', 'table.table_entry_size')
+    samples = []
+    if tes is not None:
+        try:
+            for a in (0, 1, 2, 7, 100):
+                for b in (0, 1, 3, 50):
+                    samples.append((a, b, int(tes(b'n' * a, b'v' * b))))
+        except Exception as ex:
+            report['missing'].append('table_entry_size samples: %r' % (ex,))
+    s += 'def entrySizeSamples : List (Nat × Nat × Nat) := [%s]\n' % ', '.join('(%d, %d, %d)' % t for t in samples)
+    hfl = [get(HT, 'HUFFMAN_COMPLETE', 'c'), get(HT, 'HUFFMAN_EMIT_SYMBOL', 'e'), get(HT, 'HUFFMAN_FAIL', 'f')]
+    s += 'def huffFlags : List Nat := [%s]\n' % ', '.join(str(int(x)) for x in hfl if x is not None)
     s += 'end Gen\n'
     emit('Consts.lean', s)
 
